@@ -33,6 +33,8 @@ CONSTANTS
   NamedStringValidated,    \* D31: values of named string types (uuid, password, ...) reach the validators as strings
                            \*      (FALSE: stringValidator rejects every value: always 422)
   RequiredFileIs422,       \* D32: a missing required file parameter is a `required` failure (FALSE: ParseError, status 400)
+  FormDataFromBodyOnly,    \* TRUE: urlencoded formData parameters are read from the request body (request.PostForm).
+                           \*       FALSE: a seeded mutant - request.Form, i.e. the URL query string merged after the body fields
   ItemFormatValidated      \* D33: array items of named-string formats are checked against their format (FALSE: validate's
                            \*      items validator consults the format of the array parameter; any text is accepted)
 
@@ -259,7 +261,11 @@ Validated(d, o) == IF o.k = "ok" /\ ~Validates(d, o.val) THEN REJ ELSE o
 ValidatedSet(d, S) == { Validated(d, o) : o \in S } \cup (IF d.val.k # "none" /\ \E o \in S : o.k = "okany" THEN {REJ} ELSE {})
 
 (* --------------------------- the request -------------------------------- *)
-(* req = [pairs |-> Seq([k, v, bare, file, fn]), seg |-> bytes]                                          *)
+(* req = [pairs |-> Seq([k, v, bare, file, fn]), seg |-> bytes, other |-> Seq(pair), oenc |-> string]      *)
+(* pairs: what is sent in the parameter's own location.  other: (key, text) pairs sent in the OPPOSITE     *)
+(* location of the same request - the URL query string for a formData parameter, an urlencoded / multipart *)
+(* body (oenc) for a query parameter.  The statement looks a parameter up "under the rules of its          *)
+(* location": Occurrences never reads `other`.                                                             *)
 HeaderTokenBytes == (48..57) \cup (65..90) \cup (97..122) \cup {33, 35, 36, 37, 38, 39, 42, 43, 45, 46, 94, 95, 96, 124, 126}
 \* http.CanonicalHeaderKey
 Canon(name) ==
@@ -280,9 +286,12 @@ FileParts(d, req) == SelectSeq(req.pairs, LAMBDA p : p.k = d.name /\ p.file)
 \* FAITHFUL: runtime.Values(map).GetOK(name) - net/http stores received header fields under their canonical key
 StoredKey(d, key) == IF d.in = "header" THEN Canon(key) ELSE key
 LookupKey(d) == IF d.in = "header" /\ HeaderCanonicalLookup THEN Canon(d.name) ELSE d.name
+\* the map the binder reads: URL.Query() / Header / MultipartForm.Value / PostForm (request.Form would append the query)
+SourcePairs(d, req) ==
+  IF d.in = "formData" /\ d.enc = "urlencoded" /\ ~FormDataFromBodyOnly THEN req.pairs \o req.other ELSE req.pairs
 GetOK(d, req) ==
   IF d.in = "path" THEN <<req.seg>>
-  ELSE ValuesOf(SelectSeq(req.pairs, LAMBDA p : StoredKey(d, p.k) = LookupKey(d) /\ ~p.file))
+  ELSE ValuesOf(SelectSeq(SourcePairs(d, req), LAMBDA p : StoredKey(d, p.k) = LookupKey(d) /\ ~p.file))
 
 (* --------------------------- collection formats ------------------------- *)
 SepOf(cf) == CASE cf = "ssv" -> 32 [] cf = "tsv" -> 9 [] cf = "pipes" -> 124 [] OTHER -> 44
